@@ -21,7 +21,8 @@
 EXTENDS Naturals, Sequences, FiniteSets, TLC
 
 (* entry points: callables the background goroutines call, and the request path *)
-ReloadEntries == {"signer", "httpsig", "tls", "truststore", "ruleset", "ruleset-fs", "ruleset-http", "k8s-status"}
+ReloadEntries == {"signer", "httpsig", "tls", "truststore", "ruleset", "ruleset-fs", "ruleset-http", "k8s-status",
+                  "redis-credentials"}
 RequestEntries == {"jwks", "introspection", "authorizer", "contextualizer", "rawrequest", "extractors"}
 
 (* Input classes (by construction of the input, never by parsing it in the harness).         *)
